@@ -68,7 +68,7 @@ impl ModuleTag {
     /// The size of the module/the BLOB in memory.
     #[must_use]
     pub const fn module_size(&self) -> u32 {
-        self.mod_end - self.mod_start
+        self.mod_end.saturating_sub(self.mod_start)
     }
 }
 
